@@ -33,12 +33,12 @@ type config struct {
 }
 
 type hit struct {
-	call   string
-	key    string
-	value  string
-	inv    map[int64]int  // invalidations processed per connection when the call started
-	dead   map[int64]bool // connections known lost when the call started
-	cfg    string
+	call  string
+	key   string
+	value string
+	inv   map[int64]int  // invalidations processed per connection when the call started
+	dead  map[int64]bool // connections known lost when the call started
+	cfg   string
 }
 
 type mapCache struct {
@@ -46,10 +46,14 @@ type mapCache struct {
 	m  map[string]rueidis.RedisMessage
 }
 
-func (c *mapCache) Get(k string) rueidis.RedisMessage { c.mu.Lock(); defer c.mu.Unlock(); return c.m[k] }
+func (c *mapCache) Get(k string) rueidis.RedisMessage {
+	c.mu.Lock()
+	defer c.mu.Unlock()
+	return c.m[k]
+}
 func (c *mapCache) Set(k string, v rueidis.RedisMessage) { c.mu.Lock(); c.m[k] = v; c.mu.Unlock() }
-func (c *mapCache) Del(k string)                          { c.mu.Lock(); delete(c.m, k); c.mu.Unlock() }
-func (c *mapCache) Flush()                                { c.mu.Lock(); c.m = map[string]rueidis.RedisMessage{}; c.mu.Unlock() }
+func (c *mapCache) Del(k string)                         { c.mu.Lock(); delete(c.m, k); c.mu.Unlock() }
+func (c *mapCache) Flush()                               { c.mu.Lock(); c.m = map[string]rueidis.RedisMessage{}; c.mu.Unlock() }
 
 type monitor struct {
 	mu   sync.Mutex
@@ -152,6 +156,7 @@ func runConfig(run *mon.Run, cfg config) {
 		}
 	}()
 
+	var variant atomic.Int64
 	var hitsMu sync.Mutex
 	var hits []hit
 	var calls, hitCount, missCount, errCount atomic.Int64
@@ -159,6 +164,9 @@ func runConfig(run *mon.Run, cfg config) {
 		s, err := msg.ToString()
 		if err != nil {
 			return
+		}
+		if s == "" {
+			return // GETRANGE of a key that does not exist (just flushed or expired) answers an empty string
 		}
 		if !strings.HasPrefix(s, k+":") {
 			run.Violation("foreign-value", call, map[string]any{"config": cfg.name, "key": k, "got": s})
@@ -173,8 +181,21 @@ func runConfig(run *mon.Run, cfg config) {
 			missCount.Add(1)
 		}
 	}
+	// some fetches are slow to start, so that invalidations arrive while cache entries are still pending
+	srv.Plan(&fakeredis.Rule{Name: "slow-fetch", Match: func(_ *fakeredis.Conn, a []string) bool {
+		return len(a) > 0 && a[0] == "CLIENT" && len(a) > 1 && a[1] == "CACHING" && version.Load()%7 == 0
+	}, Action: fakeredis.Action{DelayBefore: 300 * time.Microsecond}})
+	// three different cacheable commands read every key (the store keeps one entry per command under the key)
 	get := func(k string) rueidis.Cacheable {
-		c := client.B().Get().Key(k).Cache()
+		var c rueidis.Cacheable
+		switch variant.Add(1) % 3 {
+		case 0:
+			c = client.B().Get().Key(k).Cache()
+		case 1:
+			c = client.B().Getrange().Key(k).Start(0).End(-1).Cache()
+		default:
+			c = client.B().Getrange().Key(k).Start(0).End(4000).Cache()
+		}
 		if cfg.static {
 			return c.ToStaticTTL()
 		}
@@ -267,7 +288,7 @@ func runConfig(run *mon.Run, cfg config) {
 				continue
 			}
 			switch strings.ToUpper(ev.Argv[0]) {
-			case "GET":
+			case "GET", "GETRANGE":
 				if ev.Reply.T == '$' && !ev.Reply.Null2 {
 					cands[ev.Reply.S] = append(cands[ev.Reply.S], cand{ev.Conn, ev.Seq})
 				}
